@@ -73,7 +73,7 @@ Definition pending (s : st) : list entry := fast s ++ qpending s.
 (* ---- observable events ---- *)
 Inductive src := FromFast | FromQueue.
 Inductive event :=
-| Accepted (e : entry)                     (* queueMsg -> True / sendMsg stored / bot's own message stored *)
+| Accepted (f : src) (e : entry)           (* (f: into the fastqueue / into the queue) queueMsg -> True / sendMsg stored / bot's own message stored *)
 | Refused (explicit : bool) (m : msg)      (* queueMsg -> False (explicit) / sendMsg on a zombie (silent) *)
 | Took (f : src) (e : entry) (now : Z)     (* removed from its queue by takeMsg at clock reading now *)
 | Dropped (e : entry)                      (* an outFilter returned None for it *)
@@ -100,7 +100,7 @@ Definition enqueue (c : cfg) (s : st) (m : msg) : st * list event :=
      | High => set_hi s1 (hi s1 ++ [e])
      | Low => set_lo s1 (lo s1 ++ [e])
      | Normal => set_no s1 (no s1 ++ [e])
-     end, [Accepted e]).
+     end, [Accepted FromQueue e]).
 
 (* IrcMsgQueue.dequeue; [now] is the time.time() read in the JOIN branch *)
 Definition dequeue (c : cfg) (now : Z) (s : st) : st * option entry :=
@@ -133,7 +133,7 @@ Definition queueMsg (c : cfg) (s : st) (m : msg) : st * list event :=
 Definition sendMsg (s : st) (m : msg) : st * list event :=
   if zombie s then (s, [Refused false m])
   else let e := (nxt s, m) in
-       (set_fast (set_nxt s (S (nxt s))) (fast s ++ [e]), [Accepted e]).
+       (set_fast (set_nxt s (S (nxt s))) (fast s ++ [e]), [Accepted FromFast e]).
 
 (* ---- the outFilter chain: the composite of all callbacks ---- *)
 Inductive fres := FPass | FRewrite (out : msg) | FDrop (dt : Z).
@@ -281,7 +281,7 @@ Definition gOp (v : value) : op :=
 Definition vE (e : entry) : value := L [I (mid (snd e)); vS (mcmd (snd e))].
 Definition vEvent (ev : event) : value :=
   match ev with
-  | Accepted e => L [I 0; vE e]
+  | Accepted _ e => L [I 0; vE e]
   | Refused b m => L [I 1; vB b; I (mid m)]
   | Took f e now => L [I 2; I (match f with FromFast => 0 | FromQueue => 1 end); vE e; I now]
   | Dropped e => L [I 3; vE e]
